@@ -337,6 +337,10 @@ def rule_b(ctx, facts):
             kind = "bishop" if "bishop" in callee else "rook"
             pat = ALLOWED_CALLERS.get(fn.def_path)
             key = "%s->%s" % (fn.def_path, kind + "_strict")
+            if pat is None and fn.kind == "Closure" and ALLOWED_CALLERS.get(fn.def_path.split("::{closure")[0]) == "pinned":
+                ok, why = check_mapped_closure(ctx, facts, fn, kind)
+                r.check(ok, key, "%s: %s" % (fn.id, why), site=ctx.site(fn, bi), what="%s (closure mapped over the pinners)" % key, detail=why)
+                continue
             if pat is None:
                 r.fail(key, "%s calls %s_strict from a site that is not in the reviewed list of aligned-pair call sites"
                        % (fn.id, kind), site=ctx.site(fn, bi))
@@ -344,6 +348,31 @@ def rule_b(ctx, facts):
             ok, why = check_site(ctx, facts, fn, bi, t, kind, pat)
             r.check(ok, key, "%s: %s" % (fn.id, why), site=ctx.site(fn, bi), what="%s (%s)" % (key, pat), detail=why)
     r.floor(n, 6, "between::*_strict call sites")
+
+
+def check_mapped_closure(ctx, facts, clo, kind):
+    """`pinners.into_iter().map(|p| between::X_strict(p, king))` inside pinned(): the closure's item is a pinner of the same
+    geometry (the iterator it is mapped over is X_xray(.., king) & sliders) and its second operand the captured king."""
+    from .fx import FxBuilder, walk_tree, unstamp
+    from .expr import show
+    parent = facts.fns.get(clo.def_path.split("::{closure")[0])
+    if parent is None:
+        return False, "parent function of the closure not found"
+    stop = ("owlchess::between::bishop_strict", "owlchess::between::rook_strict", "owlchess::legal::DefaultPrechecker::bishop_xray",
+            "owlchess::legal::DefaultPrechecker::rook_xray", "owlchess::board::Board::piece_diag", "owlchess::board::Board::piece_line",
+            "owlchess::board::Board::color")
+    tree = FxBuilder(facts, stop=stop).tree(parent)
+    for n_, _c, _i in walk_tree(tree):
+        if n_[0] == "call" and (n_[2] or "").endswith("iterator::Iterator::map") and len(n_[3]) == 2:
+            src_set, cl = show(unstamp(n_[3][0])), unstamp(n_[3][1])
+            if cl[0] == "agg" and cl[1] == "closure" and cl[2] == clo.def_path:
+                king_ok = any(show(unstamp(x)) in ("king", "&king") for x in cl[3])
+                if not king_ok:
+                    return False, "the closure does not capture the king square"
+                if ("%s_xray(" % kind) in src_set and "king)" in src_set:
+                    return True, "closure mapped over %s_xray(.., king) & sliders: (p, king) aligned along %s lines" % (kind, kind)
+                return False, "the closure calling %s_strict is mapped over %s" % (kind, src_set[:120])
+    return False, "the closure is not mapped over an iterator in its parent"
 
 
 NO_INLINE = ("owlchess::between::is_bishop_valid", "owlchess::between::is_rook_valid")
